@@ -377,6 +377,94 @@ func Degenerate(rng *fw.Rng, W int64) Poly {
 	return p
 }
 
+// Big: structured / large inputs - many vertices, windows of tens of pixels (W is ignored; sizes are chosen here).
+// Variants: a star with 40-150 vertices, a comb with 8-30 teeth, a grown simple polygon with 40-120 vertices,
+// a spiral corridor (hairpin bends: rings that grow to several times their vertex count when snapped at coarse levels).
+func Big(rng *fw.Rng, W int64) Poly {
+	switch rng.Intn(4) {
+	case 0:
+		w := float64(120 + rng.Intn(280))
+		p := Poly{star(rng, w/2, w/2, w*0.1*rng.Float64(), w*0.45, 40+rng.Intn(110))}
+		if rng.Bool() {
+			p = append(p, star(rng, w/2, w/2, 1, w*0.08, 3+rng.Intn(6)))
+		}
+		return p
+	case 1:
+		x, y0 := int64(rng.Intn(8)), int64(rng.Intn(8))
+		base := int64(1 + rng.Intn(12))
+		r := []P{{x, y0}}
+		teeth := 8 + rng.Intn(23)
+		var top []P
+		cx := x
+		for t := 0; t < teeth; t++ {
+			tw := int64(1 + rng.Intn(6))
+			th := int64(1 + rng.Intn(120))
+			top = append(top, P{cx, y0 + base + th}, P{cx + tw, y0 + base + th})
+			cx += tw
+			if t < teeth-1 {
+				gw := int64(1 + rng.Intn(6))
+				top = append(top, P{cx, y0 + base}, P{cx + gw, y0 + base})
+				cx += gw
+			}
+		}
+		r = append(r, P{cx, y0})
+		for i := len(top) - 1; i >= 0; i-- {
+			r = append(r, top[i])
+		}
+		return Poly{r}
+	case 2:
+		WW := int64(80 + rng.Intn(240))
+		r := []P{{rng.Int63n(WW), rng.Int63n(WW)}, {rng.Int63n(WW), rng.Int63n(WW)}, {rng.Int63n(WW), rng.Int63n(WW)}}
+		if !oracle.RingSimple(r) || oracle.Area2(r).Sign() == 0 {
+			return Poly{r}
+		}
+		target := 40 + rng.Intn(80)
+		for tries := 0; tries < 1500 && len(r) < target; tries++ {
+			i := rng.Intn(len(r))
+			p := P{rng.Int63n(WW), rng.Int63n(WW)}
+			nr := append(append(append([]P{}, r[:i+1]...), p), r[i+1:]...)
+			if oracle.RingSimple(nr) {
+				r = nr
+			}
+		}
+		return Poly{r}
+	default:
+		// rectangular spiral corridor of width cw with gap g, n turns: long parallel strokes close together
+		cw, g := int64(1+rng.Intn(4)), int64(1+rng.Intn(4))
+		n := 2 + rng.Intn(5)
+		step := cw + g
+		size := int64(2*n+2) * step
+		var outer, inner []P
+		x0, y0, x1, y1 := int64(0), int64(0), size, size
+		for k := 0; k < n; k++ {
+			outer = append(outer, P{x0, y0}, P{x1, y0}, P{x1, y1}, P{x0 + step, y1})
+			x0, y0, x1, y1 = x0+step, y0+step, x1-step, y1-step
+			_ = inner
+		}
+		// walk the outer spine outwards-in, then come back along a parallel offset of cw
+		spine := outer
+		var back []P
+		for i := len(spine) - 1; i >= 0; i-- {
+			p := spine[i]
+			// offset towards the inside of the spiral (approximate: shift by cw diagonally inwards)
+			cx, cy := size/2, size/2
+			dx, dy := int64(0), int64(0)
+			if p[0] < cx {
+				dx = cw
+			} else {
+				dx = -cw
+			}
+			if p[1] < cy {
+				dy = cw
+			} else {
+				dy = -cw
+			}
+			back = append(back, P{p[0] + dx, p[1] + dy})
+		}
+		return Poly{append(spine, back...)}
+	}
+}
+
 // Kinds lists all generator names.
 var Kinds = []string{"star", "comb", "sliver", "angle", "rectholes", "spiky", "grow", "junk", "motif", "border", "moat"}
 
@@ -407,6 +495,8 @@ func ByName(name string, rng *fw.Rng, W int64) Poly {
 		return Moat(rng, W)
 	case "degenerate":
 		return Degenerate(rng, W)
+	case "big":
+		return Big(rng, W)
 	}
 	panic("unknown generator " + name)
 }
